@@ -42,8 +42,10 @@ CLAIMED['C01'] = dict(
     text=("Theorems for every hierarchy and every history of register/remove/touch/evaluation operations: Hook.functions equals the "
           "documented priority order computed from the registration log; scope is exactly the class and its subclasses; a removed "
           "implementation is in no chain; touches change nothing; first non-None wins. Both repaired defects (cycle flag reset, "
-          "base-class wrapper) are kept as vm_compute-refuted witnesses on the pinned semantics. Wrapper composition for arbitrary "
-          "wrapper stacks is covered by the correspondence run and the independent oracle, not yet by a theorem (partial)."),
+          "base-class wrapper) are kept as vm_compute-refuted witnesses on the pinned semantics. Wrapper composition: a stack of any "
+          "number of cycle-guarded additive wrappers over a plain implementation yields the plain value plus every wrapper's amount, each exactly "
+          "once, from any flag state, and leaves all flags as they were (HookWrappers.v); wrappers with None-producing or raising post-processing "
+          "are covered by the correspondence run and the oracle (partial)."),
     note=HOOK_NOTE, ref="DESIGN.md section 4 C01")
 CLAIMED['C02'] = dict(
     technique="Coq proofs about the read state machine (explicit > remembered > computed) of the hook machine; model tied by differential runs",
